@@ -1721,6 +1721,32 @@ def _gen_function(kv, sections, repo, res: UnitResult, variant) -> list:
         body = body.replace(x, y)
         log.setdefault("SUB", []).append(pair)
 
+    # opaque=/let x = /=>CALL : the initializer expression of the `let` statement the regex matches (from the end of the match
+    # to the `;` that closes the statement) is replaced by CALL - an external shim; what is dropped is exactly that expression
+    for pair in [p for p in kv.get("opaque", "").split(";;") if p]:
+        pat, call = pair.split("=>")
+        mm = re.search(pat, body)
+        if not mm:
+            raise ExtractError("anchor lost: opaque expression /%s/ not found in fn %s" % (pat, kv["fn"]))
+        btoks = lex(body); depth = 0; endpos = None
+        for t in btoks:
+            if t.start < mm.end():
+                continue
+            if t.kind == "punct" and t.text in "([{":
+                depth += 1
+            elif t.kind == "punct" and t.text in ")]}":
+                depth -= 1
+                if depth < 0:
+                    break
+            elif t.kind == "punct" and t.text == ";" and depth == 0:
+                endpos = t.start
+                break
+        if endpos is None:
+            raise ExtractError("anchor lost: opaque expression /%s/ has no terminating `;`" % pat)
+        dropped = body[mm.end():endpos]
+        body = body[:mm.end()] + call + "\n" * dropped.count("\n") + body[endpos:]
+        log.setdefault("OPAQUE", []).append({"anchor": pat, "replaced_by": call, "dropped_text_sha256": hashlib.sha256(dropped.encode()).hexdigest()[:16], "dropped_lines": dropped.count("\n") + 1})
+
     # --- signature
     if sig_override is not None:
         sig_text = sig_override
